@@ -9,7 +9,8 @@ from . import codec
 
 
 class SimInverter:
-    def __init__(self, seed: int = 0, mode: str = "file", comm_addr=None, valid=None, aa55=True, modbus=True):
+    def __init__(self, seed: int = 0, mode: str = "file", comm_addr=None, valid=None, aa55=True, modbus=True,
+                 fill: str = "hash"):
         """
         mode      'file'  -> reads are answered from the register file (explicit values over a seeded default)
                   'stamp' -> every payload word j of a read of register R answering transmission n is
@@ -19,6 +20,7 @@ class SimInverter:
                   touches anything outside gets exception 2 (ILLEGAL DATA ADDRESS)
         """
         self.seed = seed
+        self.fill = fill
         self.mode = mode
         self.comm_addr = comm_addr
         self.valid = valid
@@ -39,6 +41,10 @@ class SimInverter:
 
     # ------------------------------------------------------------------ register file
     def default_word(self, a: int) -> int:
+        if self.fill == "zero":
+            return 0
+        if self.fill == "ff":
+            return 0xFFFF
         x = (a * 0x9E3779B1 + self.seed * 0x85EBCA6B + 0x27D4EB2F) & 0xFFFFFFFF
         x ^= x >> 15
         x = (x * 0x2C1B3C6D) & 0xFFFFFFFF
